@@ -313,7 +313,18 @@ func (c *Ctx) genC03() {
 			c.count("c03-audiences", fmt.Sprintf("other-identifier shape=%d", shape))
 		})
 	}
-	// nested status code must not matter; status is the top-level value
+	// nested status codes must not matter; the status is the top-level value
+	for _, ns := range []struct {
+		top  string
+		nest []string
+	}{{"urn:oasis:names:tc:SAML:2.0:status:Responder", []string{successSt}}, {"urn:oasis:names:tc:SAML:2.0:status:Requester", []string{"urn:oasis:names:tc:SAML:2.0:status:AuthnFailed", successSt}},
+		{successSt, []string{"urn:oasis:names:tc:SAML:2.0:status:Responder"}}, {"", []string{successSt}}} {
+		ns := ns
+		variants(func(cfg SPCfg, r *Resp) {
+			r.Status, r.StatusNested = ns.top, ns.nest
+			c.count("c03-single", "status:nested")
+		})
+	}
 	// pairwise perturbations, sampled
 	n := 300
 	if !c.quick() {
